@@ -12,7 +12,8 @@
      cache updates;
    - the clock in integer nanoseconds (Z); `int((a - b) / 1000 / 1000 / 1000)` is truncation
      towards zero (`Z.quot`), validated against CPython's float arithmetic for |a-b| < 10^16 ns;
-   - digests are symbolic (free constructors over (salt, login, password));
+   - digests are symbolic but keep the code's key FORMAT: a digest is a free constructor over (salt, login ++ password)
+     -- the hash covers the concatenation only -- and the failed-cache key is (login prefix, digest);
    - "raised KeyError" is an explicit value of the result type.
 
    The pinned code has three defects (see notes/C17.md).  The record `variant` selects, at exactly
@@ -32,20 +33,28 @@ Open Scope Z_scope.
 
 (* ---------------------------------------------------------------- values *)
 
-(* The Python variable `digest` holds "" , a digest str(sha3_512(salt ++ login ++ password)), or
+(* The Python variable `digest` holds "" , a digest str(sha3_512(salt ++ login ++ password).digest()), or
    (inside/after the sweep loops) a key of `_cache_failed`, i.e. login ++ ":" ++ digest. *)
 Inductive dval :=
 | DEmpty
-| DHash (salt : Z) (l p : pystr)
-| DKey (kl : pystr) (salt : Z) (l p : pystr).
+| DHash (salt : Z) (cat : pystr)                 (* str(sha3_512(salt ++ cat).digest()) *)
+| DKey (kl : pystr) (salt : Z) (cat : pystr).     (* kl ++ ":" ++ str(sha3_512(salt ++ cat).digest()) *)
 
 Definition dval_eqb (a b : dval) : bool :=
   match a, b with
   | DEmpty, DEmpty => true
-  | DHash s l p, DHash s' l' p' => Z.eqb s s' && eqs l l' && eqs p p'
-  | DKey k s l p, DKey k' s' l' p' => eqs k k' && Z.eqb s s' && eqs l l' && eqs p p'
+  | DHash s c, DHash s' c' => Z.eqb s s' && eqs c c'
+  | DKey k s c, DKey k' s' c' => eqs k k' && Z.eqb s s' && eqs c c'
   | _, _ => false
   end.
+
+(* self._cache_digest(login, password, str(salt)): h.update(salt); h.update(login); h.update(password) hashes the
+   CONCATENATION, so the digest determines salt and login ++ password, not login and password separately
+   ("ab","c" and "a","bc" have the same digest).  (That str(salt) has a fixed width, 19 digits, is an assumption.) *)
+Definition cache_digest (login pw : pystr) (salt : Z) : dval := DHash salt (login ++ pw).
+(* digest_failed = login + ":" + self._cache_digest(login, password, str(salt0)): the readable login prefix is what
+   makes the key determine (login, password) -- Proofs/LoginCacheDict.v, failed_key_inj. *)
+Definition failed_key (salt : Z) (login pw : pystr) : dval := DKey login salt (login ++ pw).
 
 Inductive exn := KeyError | OtherError.   (* OtherError: never produced by the model; lets the harness state "some other exception" *)
 Inductive res (A : Type) := Ok (a : A) | Err (e : exn).
@@ -188,7 +197,7 @@ Definition backend_part (cfg : config) (bk : pystr -> pystr -> pystr) (now : Z)
   else
     let result := bk login pw in
     if nonempty result then
-      let digest := if is_dempty digest then DHash now login pw else digest in
+      let digest := if is_dempty digest then cache_digest login pw now else digest in
       let sd := dset eqs sd login (digest, now, result) in
       let fd := match dget dval_eqb fd digest_failed with
                 | Some _ => ddel dval_eqb fd digest_failed
@@ -201,7 +210,7 @@ Definition backend_part (cfg : config) (bk : pystr -> pystr -> pystr) (now : Z)
 (* lines 249-308, after the sweep; `login` and `digest` are the function-level names as the sweep left them *)
 Definition after_sweep (v : variant) (cfg : config) (bk : pystr -> pystr -> pystr) (now : Z)
            (sd : sdict) (fd : fdict) (login : pystr) (digest : dval) (pw : pystr) : lresult :=
-  let digest_failed := DKey login (c_salt cfg) login pw in
+  let digest_failed := failed_key (c_salt cfg) login pw in
   match dget dval_eqb fd digest_failed with
   | Some _ =>
       (* (time_ns_cache, login_cache) = self._cache_failed[digest]   /  [digest_failed] after the fix *)
@@ -212,7 +221,7 @@ Definition after_sweep (v : variant) (cfg : config) (bk : pystr -> pystr -> pyst
   | None =>
       match dget eqs sd login with
       | Some (digest_cache, time_ns_cache, user_cache) =>
-          let digest := DHash time_ns_cache login pw in
+          let digest := cache_digest login pw time_ns_cache in
           if dval_eqb digest digest_cache then
             if age_s now time_ns_cache >? c_exp_s cfg then
               backend_part cfg bk now (ddel eqs sd login) fd login pw digest_failed DEmpty [] false
@@ -222,7 +231,7 @@ Definition after_sweep (v : variant) (cfg : config) (bk : pystr -> pystr -> pyst
           else
             backend_part cfg bk now sd fd login pw digest_failed digest [] false
       | None =>
-          backend_part cfg bk now sd fd login pw digest_failed (DHash now login pw) [] false
+          backend_part cfg bk now sd fd login pw digest_failed (cache_digest login pw now) [] false
       end
   end.
 
